@@ -37,14 +37,16 @@ def names_for(system, spelling="generic", alt=0):
     return tuple(out)
 
 
-def np_array(system, rows, momentum=False, shape=None, spelling=None, dtype=numpy.float64):
-    """NumPy vector array storing `rows` (list of coordinate tuples) in `system`."""
+def np_array(system, rows, momentum=False, shape=None, spelling=None, dtype=numpy.float64, extra=False):
+    """NumPy vector array storing `rows` (list of coordinate tuples) in `system`; extra: a non-coordinate int field"""
     d = len(system) + 1
     names = names_for(system, spelling or ("momentum" if momentum else "generic"))
-    dt = [(n, dtype) for n in names]
+    dt = [(n, dtype) for n in names] + ([("charge", numpy.int64)] if extra else [])
     arr = numpy.zeros(len(rows), dtype=dt)
     for j, n in enumerate(names):
         arr[n] = [r[j] for r in rows]
+    if extra:
+        arr["charge"] = numpy.arange(len(rows)) % 3 - 1
     if shape is not None:
         arr = arr.reshape(shape)
     cls = (NP_MOM if momentum else NP_GEN)[d]
@@ -188,7 +190,7 @@ def build_layout(layout, system, rows, momentum=False, spelling="generic", extra
     assert len(rows) == N_ELEMS
     d = len(system) + 1
     if layout in NP_LAYOUTS:
-        a = np_array(system, rows, momentum, spelling=spelling if spelling == "momentum" else None, dtype=dtype)
+        a = np_array(system, rows, momentum, spelling=spelling if spelling == "momentum" else None, dtype=dtype, extra=bool(extra))
         return a.reshape(2, 3) if layout == "np2" else a
     if layout in NP_VIEW_LAYOUTS:
         # views sharing memory with a larger live base array (aliasing between result assembly and operand storage)
@@ -202,6 +204,17 @@ def build_layout(layout, system, rows, momentum=False, spelling="generic", extra
             base = np_array(system, [tuple(3.5 for _ in rows[0])] * 2 + list(rows) + [tuple(1.25 for _ in rows[0])], momentum, dtype=dtype)
             return base[2:-1]
     ex = {"charge": numpy.array([1, -1, 0, 2, -2, 1]), "tag": numpy.array([0.5, 1.5, 2.5, 3.5, 4.5, 5.5])} if extra else None
+    if extra == "redundant":
+        # redundant coordinate columns of *lower* precedence than the stored ones (z > theta > eta, t > tau), as in tables that
+        # carry derived quantities next to the components: they must be ignored whatever the spelling of the stored ones
+        ex = {"charge": numpy.array([1, -1, 0, 2, -2, 1])}
+        if d >= 3 and system[1] == "z":
+            ex["theta"] = numpy.array([0.5, 1.0, 1.5, 2.0, 2.5, 0.25])
+            ex["eta"] = numpy.array([0.3, -0.3, 1.2, -1.2, 0.1, 2.0])
+        elif d >= 3 and system[1] == "theta":
+            ex["eta"] = numpy.array([0.3, -0.3, 1.2, -1.2, 0.1, 2.0])
+        if d == 4 and system[2] == "t":
+            ex["tau"] = numpy.array([1.0, 2.0, 3.0, 0.5, 0.25, 4.0])
     flat = ak_flat(system, rows, momentum, spelling, ex, alt, dtype=dtype)
     if layout == "flat":
         return flat
